@@ -91,6 +91,11 @@ pub mod time;
 #[cfg(all(test, feature = "std"))]
 pub mod test_utils;
 
+#[cfg(kani)]
+pub mod verif_support {
+    include!(concat!(env!("PROFIRUST_VERIF_HARNESS"), "/support.rs"));
+}
+
 /// Baudrate for fieldbus communication
 ///
 /// - PROFIBUS DP networks can run at any of the available baudrates given that all stations
